@@ -12,6 +12,14 @@ def run(res):
     dc.repo_tests_validate(res)
     if thorough:
         dc.simulate_big(res)
+    # ... and therefore a World (it is a dispatcher): lifecycle callbacks follow the same gate - an on_add that disables
+    # dispatching in the middle of a multi-component create_entity, an on_remove that disables it: what follows is
+    # postponed, nothing runs while the gate is closed, the release order is the order of the operations
+    from . import world_common as wc
+    C3 = {'c1': ('A', ('on_add', 'on_remove', 'probe')), 'c2': ('B', ('on_add', 'probe')), 'c3': ('B', ('on_remove',))}
+    Kr = wc.base(Acts={'create', 'add', 'remove', 'toggle', 'reentrant', 'probe'}, Ids={1, 2}, MaxAuto=0, Types=wc.T2, Bases=wc.BASES2, MaxQ=2,
+                 **wc.comps(C3, falsy={'c3'}))
+    wc.check_and_replay(res, 'c04_world_gate', Kr, {'log', 'enabled', 'wb_queue_len', 'ret'}, depth_all=0, walks=3000 if thorough else 600, walk_len=25)
     # non-vacuity: the as-implemented release loop violates the model's properties
     c2, ov2 = dc.consts(H=2, subs='Subs_Fixed', beh='Beh_C04', maxq=2, maxeid=3, pops=False)
     dc.switch_run(res, 'c04_asimpl_release', c2, ov2, expect=('NoBad', 'ReleaseProgress', 'QueueInOrder', 'DrainedOnReturn', 'StateBound'))
